@@ -4,7 +4,7 @@ CONSTANTS
   MaxLen = 4
   UpdKinds = {"load", "inplace"}
   Nests = {"any"}
-  MatchOpts <- Opts_quick
+  MatchOpts <- Opts_q3
 INVARIANT CurrentWeights
 INVARIANT CurrentStats
 INVARIANT OptionsOfThisCall
